@@ -554,7 +554,33 @@ def rule_C13(env):
     nleaves = cli_flag_checks(env, res, "R13.a")
     res.floor("R13.a", 20, "generate() call snapshots")
     # inertness of the one conditionally forwarded setting
-    bad = [k for k in rate_is_inert_without_mutators(env.prog) if not rate_inert_semantically(env, re.sub(r"::\{closure#\d+\}.*$", "", k))]
+    def inert(k):
+        """a body the syntactic rule flags is fine when it is itself a value loop that is inert with an empty mutator list, or a
+        helper (e.g. a generic `first_mutation(closure)`) that is only reachable through such value loops"""
+        k = re.sub(r"::\{closure#\d+\}.*$", "", k)
+        if rate_inert_semantically(env, k):
+            return True
+        cg = CG.CallGraph(env.prog)
+        seen, work, roots = {k}, [k], []
+        while work:
+            x = work.pop()
+            cs = [re.sub(r"::\{closure#\d+\}.*$", "", c) for c in cg.callers(x)]
+            if not cs:
+                return False
+            for c in cs:
+                if c in seen:
+                    continue
+                seen.add(c)
+                b = env.prog.bodies.get(c)
+                import rules_mut
+                if b is not None and b["arg_count"] == 3 and rules_mut.input_for(c.split("::")[-1].lstrip("_")) is not None:
+                    roots.append(c)
+                elif len(seen) > 40:
+                    return False
+                else:
+                    work.append(c)
+        return bool(roots) and all(rate_inert_semantically(env, r) for r in roots)
+    bad = [k for k in rate_is_inert_without_mutators(env.prog) if not inert(k)]
     for k in bad:
         res.add("R13.a", "inert/mutation_rate/%s" % k.split("::")[-1], "%s reads mutation_rate on a path where no mutator is registered: --mutation-rate must then be forwarded unconditionally" % k, env.loc(k))
     samples = []
